@@ -39,7 +39,83 @@ func checkC01(r *harness.Run) harness.Coverage {
 	}
 	docs = append(docs, collisionDocs...)
 	st := conform(r, exprs, docs, conformOpts{})
+	// nested multi-select family: every tree of lists (1-3 members) and hashes (1-2 members) over the leaves
+	// a, b, c up to depth 3 with at most 3 (thorough: 4) leaves, e.g. [[a],[b,[c]]] - far beyond the weight
+	// bound of the sentence enumeration, but the place where a parser that builds member lists shows
+	// state carried from one list to the next
+	maxLeaves := 3
+	if r.Thorough() {
+		maxLeaves = 4
+	}
+	var nested []exprCase
+	for n := 1; n <= maxLeaves; n++ {
+		for _, t := range msTrees(n, 3) {
+			nested = append(nested, exprFromText(t))
+		}
+	}
+	nestedDocs := univ.Js(`{"a":1,"b":2,"c":3}`, `{"a":[1],"b":{"c":2},"c":"c"}`, `{"a":null,"b":false,"c":[]}`, `{"b":2}`, `[1,2,3]`, `null`)
+	st2 := conform(r, nested, nestedDocs, conformOpts{})
+	st.add(st2)
+	r.Note("nested_multiselect_trees", len(nested))
+	exprs = append(exprs, nested...)
 	finishConform(r, st, len(exprs), len(docs))
 	sampleExprs(r, exprs, docs)
 	return harness.Coverage{Exhaustive: true, Bounds: map[string]interface{}{"expression_weight": maxW, "document_depth": depth, "array_width": 2}, Outcomes: distinctOutcomes(st)}
+}
+
+// msTrees lists every multi-select tree with exactly n leaves and depth <= d: a leaf is one of the fields
+// a, b, c; an inner node is a list of 1-3 subtrees or a hash (keys x, y) of 1-2 subtrees.
+func msTrees(n, d int) []string {
+	var out []string
+	if n == 1 {
+		out = append(out, "a", "b", "c")
+	}
+	if d == 0 {
+		return out
+	}
+	var split func(k, n int, f func(parts []int), acc []int)
+	split = func(k, n int, f func(parts []int), acc []int) {
+		if k == 1 {
+			f(append(append([]int{}, acc...), n))
+			return
+		}
+		for p := 1; p <= n-(k-1); p++ {
+			split(k-1, n-p, f, append(acc, p))
+		}
+	}
+	var product func(parts []int, i int, cur []string, f func(members []string))
+	product = func(parts []int, i int, cur []string, f func(members []string)) {
+		if i == len(parts) {
+			f(cur)
+			return
+		}
+		for _, t := range msTrees(parts[i], d-1) {
+			product(parts, i+1, append(cur, t), f)
+		}
+	}
+	for k := 1; k <= 3 && k <= n; k++ {
+		split(k, n, func(parts []int) {
+			product(parts, 0, nil, func(m []string) {
+				s := "["
+				for i, x := range m {
+					if i > 0 {
+						s += ","
+					}
+					s += x
+				}
+				out = append(out, s+"]")
+				if len(m) <= 2 {
+					h := "{"
+					for i, x := range m {
+						if i > 0 {
+							h += ","
+						}
+						h += string("xy"[i]) + ":" + x
+					}
+					out = append(out, h+"}")
+				}
+			})
+		}, nil)
+	}
+	return out
 }
